@@ -154,20 +154,27 @@ class reusable_storage_mtsafe: public reusable_storage {
 public:
     void *alloc(std::size_t sz)  {
         void *p;
-        if (_busy.exchange(true, std::memory_order_relaxed)) {
+        //the trailer holds the owning storage for the shared block, nullptr for a heap block
+        reusable_storage_mtsafe *owner;
+        //acquire - accesses of the previous user of the block must happen before ours
+        if (_busy.exchange(true, std::memory_order_acquire)) {
             p = ::operator new(sz+sizeof(reusable_storage_mtsafe **));
+            owner = nullptr;
         } else {
             p = reusable_storage::alloc(sz+sizeof(reusable_storage_mtsafe **));
+            owner = this;
         }
         auto s = reinterpret_cast<reusable_storage_mtsafe **>(reinterpret_cast<char *>(p) + sz);
-        *s = this;
+        *s = owner;
         return p;
     }
     static void dealloc(void *ptr, std::size_t sz) {
         auto s = reinterpret_cast<reusable_storage_mtsafe **>(reinterpret_cast<char *>(ptr) + sz);
         auto me = *s;
-        if (ptr == me->_ptr) {
-            me->_busy.store(false, std::memory_order_relaxed);
+        //don't inspect me->_ptr here, the block can be already reallocated by the next user
+        if (me) {
+            //release - our accesses to the block must happen before accesses of the next user
+            me->_busy.store(false, std::memory_order_release);
         } else {
             ::operator delete(ptr);
         }
